@@ -871,4 +871,14 @@ CORPUS = [
                                                           ("move", ("shift", ("gv", "g"), ("f", 1), ("f", 1))),
                                                           ("move", ("shift", ("gv", "g"), ("f", -1), ("f", 2))), ("move", ("gv", "g"))]}],
      "args": [("from", [5], [0, 1])]},
+    # lookups of both kinds under one name: "left" is a static trap zone AND (another grid) a special grid; "park" is special only
+    {"kernels": [{"name": "main", "params": [G], "body": [("set", ("special", "left")), ("turn", True, ("ALL",), ("ALL",)),
+                                                          ("move", ("shift", ("special", "left"), ("f", 1), ("f", 0))),
+                                                          ("move", ("trap", "left")), ("turn", False, ("ALL",), ("ALL",)),
+                                                          ("set", ("trap", "left")), ("move", ("special", "left"))]}],
+     "args": [("from", [0, 1], [0, 1])]},
+    {"kernels": [{"name": "main", "params": [G], "body": [("set", ("special", "park")), ("turn", True, ("ALL",), ("li", [("i", 0)])),
+                                                          ("move", ("shift", ("special", "park"), ("f", 0), ("f", 2))),
+                                                          ("turn", False, ("ALL",), ("li", [("i", 0)]))]}],
+     "args": [("from", [0, 1], [0, 1])]},
 ]
